@@ -1697,6 +1697,30 @@ def c15_algebra(run, Nmax=2, trees=300):
                 continue
             if not O.eq(any_dense(res, N), want):
                 b.fail('alg_' + name, 'result of %s is not the corresponding matrix operation' % name, inp)
+        # selecting terms of an UNREDUCED polynomial (phases still in ps: a product, a cast) keeps their phases and coefficients:
+        # the selected parts add up to the whole, an integer selects the term's matrix
+        for label, big in (('product', lambda: rand_poly(rng, N, 2) @ rand_poly(rng, N, 2)), ('cast', lambda: PL(gens.bits(rng, 3, 2 * N), rng.integers(0, 4, 3)).as_polynomial())):
+            inp = {'what': 'selection from a %s polynomial' % label, 'N': N}
+            b.case(sample=inp)
+            ok, big_ = guard(b, 'alg_select', big, inp)
+            if not ok or big_.L == 0:
+                continue
+            inp['poly'] = describe(big_)
+            whole = any_dense(big_, N)
+            kcut = int(rng.integers(0, big_.L + 1))
+            mk_ = rng.integers(0, 2, big_.L).astype(bool)
+            idx_ = rng.permutation(big_.L)
+            parts = [('slice', lambda: (big_[:kcut], big_[kcut:])), ('mask', lambda: (big_[mk_], big_[~mk_])), ('index', lambda: (big_[idx_[:kcut]], big_[idx_[kcut:]]))]
+            for nm, f in parts:
+                ok, pair_ = guard(b, 'alg_select_' + nm, f, inp)
+                if not ok:
+                    continue
+                a_, b_ = pair_
+                if not O.eq(any_dense(a_, N) + any_dense(b_, N), whole):
+                    b.fail('alg_select_' + nm, 'the two complementary %s selections of a polynomial do not add up to it (phases / coefficients of selected terms lost)' % nm, inp)
+            ok, terms = guard(b, 'alg_select_int', lambda: [big_[j] for j in range(big_.L)], inp)
+            if ok and not O.eq(sum(any_dense(t_, N) for t_ in terms), whole):
+                b.fail('alg_select_int', 'the integer-selected terms of a polynomial do not add up to it', inp)
         # a monomial (all four phases, complex coefficient): its inverse is the matrix inverse
         mono = P(gens.bits(rng, 2 * N), int(rng.integers(0, 4))).as_monomial().set_c(num if abs(num) > 0.05 else 1.0 + 0j)
         Mm = any_dense(mono, N)
@@ -2002,6 +2026,47 @@ def c17_copies(run, Nmax=3, rounds=40):
                     a.flat[0] = a.flat[0] + 1
             if not snap_eq(snapshot(o), before):
                 b.fail('copy_independent_' + kind, 'mutating the copy of %s changed the original' % kind, {'kind': kind})
+        # a copied circuit and its original are independent under STRUCTURAL mutation too: extending one of them (gates that slide back
+        # into earlier layers included) leaves the other's forward and backward action unchanged, and the two share no layer object
+        for cls_name, mk in (('CliffordCircuit', lambda: pcirc.CliffordCircuit(N)), ('Circuit', lambda: pcirc.Circuit(N))):
+            b.case(sample={'kind': cls_name + ' copy, structural', 'N': N})
+            try:
+                c0 = mk()
+                for _k in range(int(rng.integers(2, 6))):
+                    c0.take(random_gate(rng, N)[0])
+                if not hasattr(c0, 'copy'):
+                    continue
+                probe = PL(gens.bits(rng, 4, 2 * N), rng.integers(0, 4, 4))
+
+                def action(c_):
+                    f_ = c_.forward(probe.copy()); k_ = c_.backward(probe.copy())
+                    return [f_.gs.copy(), f_.ps % 4, k_.gs.copy(), k_.ps % 4]
+
+                def layers(c_):
+                    ids, l_ = set(), c_.first_layer
+                    while l_ is not None:
+                        ids.add(id(l_)); l_ = l_.next_layer
+                    l_ = c_.last_layer
+                    while l_ is not None:
+                        ids.add(id(l_)); l_ = l_.prev_layer
+                    return ids
+                for who in ('copy', 'original'):
+                    orig = c0.copy()
+                    cp = orig.copy()
+                    if layers(orig) & layers(cp):
+                        b.fail('copy_shares_layers_' + cls_name, 'a copied %s reaches layer objects of the original (forward or backward chain)' % cls_name, {'N': N})
+                        break
+                    a_orig, a_cp = action(orig), action(cp)
+                    victim, other = (cp, orig) if who == 'copy' else (orig, cp)
+                    for _k in range(3):
+                        victim.take(random_gate(rng, N)[0])
+                    kept = action(other)
+                    want = a_orig if who == 'copy' else a_cp
+                    if not all(np.array_equal(x, y) for x, y in zip(kept, want)):
+                        b.fail('copy_structural_%s_%s' % (cls_name, who), 'extending the %s of a %s changed the action of the other one' % (who, cls_name), {'N': N})
+                        break
+            except Exception as e:          # noqa
+                b.fail('copy_structural_%s.raises' % cls_name, repr(e)[:200], {'N': N})
         # queries: receiver and arguments unchanged
         st = mk_state(gs, ps, r)
         pure = mk_state(gs, ps, 0)
